@@ -41,6 +41,13 @@ func (n *Network) Add(id []byte) *FakeP2P {
 	return f
 }
 
+// Endpoint returns the endpoint registered for id.
+func (n *Network) Endpoint(id []byte) *FakeP2P {
+	n.mu.Lock()
+	defer n.mu.Unlock()
+	return n.nodes[string(id)]
+}
+
 func (n *Network) request(ctx context.Context, from, to []byte, m proto.Message) (p2p.P2PMessage, error) {
 	n.mu.Lock()
 	target := n.nodes[string(to)]
